@@ -1077,6 +1077,25 @@ func c13DirkRefreshUnits(tier string) []hx.Unit {
 							c13Compare(st, "C13/refresh/dirk-validating-", "ValidatingAccountsForEpoch", e, got, err, subs, c13RefValidating, nil, missKey)
 							got, err = svc.SyncCommitteeAccountsForEpoch(ctx, e)
 							c13Compare(st, "C13/refresh/dirk-sync-", "SyncCommitteeAccountsForEpoch", e, got, err, subs, c13RefSync, nil, missKey)
+							// the same through the by-index queries, asked for every index the beacon node ever used
+							var allIdx []phase0.ValidatorIndex
+							for _, n := range allNames {
+								allIdx = append(allIdx, recs[n].idx)
+							}
+							for qi, q := range []func(context.Context, phase0.Epoch, []phase0.ValidatorIndex) (map[phase0.ValidatorIndex]e2wtypes.Account, error){svc.ValidatingAccountsForEpochByIndex, svc.SyncCommitteeAccountsForEpochByIndex} {
+								name := []string{"ValidatingAccountsForEpochByIndex", "SyncCommitteeAccountsForEpochByIndex"}[qi]
+								gotI, errI := q(ctx, e, allIdx)
+								for i, acc := range gotI {
+									if ca, _ := acc.(*c13Account); ca == nil || !after[ca.wallet+"/"+ca.name] {
+										st.bad("C13/refresh/dirk-unknown-account-by-index", "%s(%d, all indices) reports under index %d an account that is not known (or no account at all) %s", name, e, i, where)
+									}
+								}
+								if qi == 0 {
+									c13Compare(st, "C13/refresh/dirk-validating-by-index-", name, e, gotI, errI, subs, c13RefValidating, nil, missKey)
+								} else {
+									c13Compare(st, "C13/refresh/dirk-sync-by-index-", name, e, gotI, errI, subs, c13RefSync, nil, missKey)
+								}
+							}
 							for i := pre; i < len(st.fails); i++ {
 								st.fails[i].msg += " " + where
 							}
@@ -1111,7 +1130,7 @@ func init() {
 		Title: "Only configured accounts validate, and only while their validator is active",
 		Rule: "(spec) every specifier list of length <= 2 (thorough <= 3) over {W, W/, W/Val1, W/Val.*, W/Val.*[02], ^W/Val1$, W/^Val1, W/Val1$, W/a|b, X/.*} x wallets {W, Wx, xW, X} each offering accounts {Val1, Val12, Val2, xVal1, a, xb}, through fetchAccountsForWallet of both managers and through the dirk manager's refreshAccounts with all four wallets open; admitted => reference full match ^(?:wallet)/(?:account)$ of some specifier (explicit anchors read literally or as redundant; under-admission is not judged). " +
 			"(state) two validators, each with every record activation/exit/withdrawable in {past, =epoch, future, far-future} (thorough: one of them also +-2 epochs) x slashed x (once exited and withdrawable) balance {kept, gone}, x query epoch 0..3, plus an active bystander and an account without validator, on both managers over the real validators manager: Validating/SyncCommittee AccountsForEpoch and ...ByIndex (five index sets) against the statement's state-at-epoch rule, keyed by the validator's own index; sync eligibility lasts from the withdrawable epoch on until the balance is gone (withdrawal done); a slashed validator without exit epoch, exit or slashing before activation, and a withdrawable epoch before the exit epoch are left open. " +
-			"(refresh) every sequence of refresh outcomes: validators manager {set A, set B, empty map, nil map, error} up to 4 (thorough 6) refreshes; dirk manager Refresh with signer outcome {accounts A, accounts B, none, wallet cannot be opened} x beacon node {answer, empty, error} (x second wallet {accounts, none} in the two-wallet configuration) up to 3 (thorough 4) refreshes; after a refresh in which the signer / the node returned nothing every account and validator known before is still known and reported, after a non-empty one the delivered records are in force. " +
+			"(refresh) every sequence of refresh outcomes: validators manager {set A, set B, empty map, nil map, error} up to 4 (thorough 6) refreshes; dirk manager Refresh with signer outcome {accounts A, accounts B, none, wallet cannot be opened} x beacon node {answer, empty, error} (x second wallet {accounts, none} in the two-wallet configuration) up to 3 (thorough 4) refreshes; after a refresh in which the signer / the node returned nothing every account and validator known before is still known and reported, after a non-empty one the delivered records are in force; the validating and sync sets are queried directly and by index (all indices the node ever used). " +
 			"non-trivial = a specifier with regex metacharacters or anchors was evaluated / a record lies on an epoch boundary / some refresh returned nothing or failed; distinct = distinct (admitted, reference, over-admitted) counts, lifecycle classes of the two validators, refresh result classes",
 		Assumptions: []string{
 			"wallets and Dirk are replaced by stand-ins that offer scripted accounts over the same channel interface; account names are non-empty (all wallet implementations reject empty names)",
